@@ -12,8 +12,8 @@ open Spec
 theorem C01_wire_exact (a : Avp) (h : AvpWF a) : encodeAvp a = .ok (avpWire a) := by
   obtain ⟨hc, hv, hf, hl, _⟩ := h
   have hl' : (if a.vendor ≠ 0 then 12 else 8) + a.payload.length < 16777216 := hl
-  simp only [encodeAvp, packUint, Avp.length, hc, lenflags_lt _ _ hl' hf, if_true, bind, Except.bind,
-    be32_lenflags _ _ hl' hf, packFopaque_self, avpWire, pure, Except.pure]
+  simp only [encodeAvp, Avp.length, hc, hv, lenflags_lt _ _ hl' hf, and_self, if_true,
+    be32_lenflags _ _ hl' hf, packFopaque_self, avpWire]
   by_cases hz : a.vendor = 0
   · simp [hz, Spec.be24, DV.be24, padding]
   · simp [hz, hv, Spec.be24, DV.be24, padding]
